@@ -15,7 +15,9 @@ META = {
                    "search history is a repetition of independent single searches; a depth-3 sequence with "
                    "symbolic keyword choices is kept as a cross-check.",
     "bounds": {"profiles": "list-length profiles incl. N a power of two with non-power-of-two lists, N <= 16",
-               "keywords": "<= 4 stored + 1 symbolic absent (2 bytes)", "depth": "1 (induction) + 3 (cross-check)"},
+               "keywords": "<= 4 stored + 1 symbolic absent (2 bytes)", "depth": "1 (induction) + 3 (cross-check)",
+               "caller behaviour": "the delivered result container is emptied by the caller after every search",
+               "configurations": "small block parameters; one per scheme with every primitive name in another accepted spelling"},
     "outside_bounds": "larger databases; bit patterns of the primitives",
     "stubs": ["as C01 (ideal primitives)"],
     "assumptions": ["ideal primitives; deepcopy/== are faithful observers of the caller's objects"],
@@ -46,6 +48,9 @@ def h_setup_pure(P, S):
     mod = load_sse_module(scheme)
     defaults = _defaults()
     cfg = PL.small_config(scheme, P.get("over"))
+    if P.get("alias"):
+        # another accepted spelling of every primitive name (look-ups ignore case and the separator)
+        cfg.update({k: v.lower().replace("-", "_") for k, v in cfg.items() if isinstance(v, str) and k != "scheme"})
     db = PL.make_db(P, S, scheme, cfg, P["lens"])
     cfg_snap = copy.deepcopy(cfg)
     db_snap = {k: list(v) for k, v in db.items()}
@@ -117,6 +122,8 @@ def h_search_pure(P, S):
             return S.fail("edb-mutated")
         if s.TokenGen(K, w).serialize() != tk_before:
             return S.fail("token-not-deterministic")
+        # the answer belongs to the caller: emptying the delivered container must not influence later searches
+        res.get_result_list().clear()
     return True
 
 
@@ -146,6 +153,9 @@ def obligations(tier, seed):
         obs.append(ob("c07.search_seq3.%s" % scheme, "harness.c07", "h_search_pure",
                       {"scheme": scheme, "over": {}, "lens": [2, 1] if tier == "quick" else [3, 2, 1],
                        "seed": seed, "depth": 3}, budget_s=400))
+    for scheme in PL.SCHEMES:
+        obs.append(ob("c07.setup_pure.%s.alias" % scheme, "harness.c07", "h_setup_pure",
+                      {"scheme": scheme, "over": {}, "lens": [2, 1], "seed": seed, "alias": True}, budget_s=240))
     # DP17 with locality > 1: lists that span several chunks (the only place where setup reorders postings)
     for lens in ([4, 3, 1], [2, 1]):
         over = {"param_L": 2, "param_actual_storage_level_ratio": 1.0}
